@@ -16,10 +16,10 @@ Norm(ev) == [ev EXCEPT !.op = [op |-> ev.op.op, from |-> ev.op.from, to |-> ev.o
                                 k |-> ev.op.k]]
 
 G0 == [flavour |-> "none"]
-Init == l = 1 /\ g = G0 /\ dead = FALSE /\ cnt = [m \in Monitors |-> 0]
+Init == l = 1 /\ g = G0 /\ dead = {} /\ cnt = [m \in Monitors |-> 0]
 
 Report(ev, m) == PrintT(<<"VIOL", ToJson([run |-> ev.run, i |-> ev.i, line |-> l, mon |-> m,
-                                          prop |-> PropOf(m), key |-> Key(m, g, ev)])>>)
+                                          prop |-> PropOf(m), key |-> Key(m, g, ev), after |-> dead])>>)
 
 Next ==
   /\ l <= Len(Rec)
@@ -27,11 +27,10 @@ Next ==
   /\ LET raw == Rec[l] IN
      IF raw.op.op = "reset"
      THEN /\ g' = GInit(raw.op.flavour, raw.obs, raw.op.cap, raw.op.owner)
-          /\ dead' = FALSE /\ UNCHANGED cnt
-     ELSE IF dead THEN UNCHANGED <<g, dead, cnt>>
-     ELSE LET ev == Norm(raw)  f == Failing(g, ev) IN
+          /\ dead' = {} /\ UNCHANGED cnt
+     ELSE LET ev == Norm(raw)  f == {m \in Failing(g, ev) : PropOf(m) \notin dead} IN
           /\ \A m \in f : Report(ev, m)
-          /\ dead' = (f # {})
+          /\ dead' = dead \cup {PropOf(m) : m \in f}
           /\ g' = GSync(GNext(g, ev), ev)
           /\ cnt' = [m \in Monitors |-> cnt[m] + IF Ante(m, g, ev) THEN 1 ELSE 0]
   /\ (l = Len(Rec) => PrintT(<<"DONE", l, ToJson(cnt')>>))
